@@ -831,3 +831,64 @@ mut("c10-quiet-helper-failreqs", ["C10"], [(US, '''			for _, req := range newReq
 }
 
 // dequeueAtHeight returns all GetUtxoRequests''')], [])
+
+# ---- C12 ----
+WM = "query/workmanager.go"
+mut("c12-maxretries-keeps-batch", ["C12"], [(WM, '''					batch.errChan <- result.err
+					stopTimers(batch)
+					delete(currentBatches, batchNum)
+
+					log.Debugf("Canceled batch %v",
+						batchNum)''', '''					batch.errChan <- result.err
+					stopTimers(batch)
+
+					log.Debugf("Canceled batch %v",
+						batchNum)''')], ["C12.X1"])
+mut("c12-rem-dec-on-failure", ["C12"], [(WM, '''				if !batch.noRetryMax {
+					result.job.tries++
+				}
+''', '''				if !batch.noRetryMax {
+					result.job.tries++
+				}
+				batch.rem--
+''')], ["C12.G1"])
+mut("c12-success-before-all-done", ["C12"], [(WM, "				if batch.rem == 0 {", "				if batch.rem <= 1 {")], ["C12.G1"])
+mut("c12-failed-job-dropped", ["C12"], [(WM, '''				heap.Push(work, result.job)
+				currentQueries[result.job.index] = batchNum
+''', '''				currentQueries[result.job.index] = batchNum
+''')], ["C12.O1"])
+mut("c12-repush-without-index", ["C12"], [(WM, '''				heap.Push(work, result.job)
+				currentQueries[result.job.index] = batchNum
+''', '''				heap.Push(work, result.job)
+''')], ["C12.O1"])
+mut("c12-no-exit-sweep", ["C12"], [(WM, '''		for _, b := range currentBatches {
+			b.errChan <- ErrWorkManagerShuttingDown
+			stopTimers(b)
+		}''', '''		for _, b := range currentBatches {
+			stopTimers(b)
+		}''')], ["C12.X1"])
+mut("c12-unbuffered-verdict", ["C12"], [(WM, "	errChan := make(chan error, 1)", "	errChan := make(chan error)")], ["C12.X1"])
+mut("c12-timeout-double-verdict", ["C12"], [(WM, '''			case <-batch.timeout:
+				batch.errChan <- ErrQueryTimeout
+				stopTimers(batch)
+				delete(currentBatches, batchNum)
+''', '''			case <-batch.timeout:
+				batch.errChan <- ErrQueryTimeout
+				stopTimers(batch)
+''')], ["C12.X1"])
+mut("c12-worker-timeout-no-result", ["C12"], [("query/worker.go", '\t\t\t\tjobErr = ErrQueryTimeout\n\t\t\t\tlog.Tracef("Worker %v timeout for request %T "+\n\t\t\t\t\t"with job index %v", peer.Addr(),\n\t\t\t\t\tjob.Req, job.Index())\n\n\t\t\t\tbreak Loop\n', '\t\t\t\tjobErr = ErrQueryTimeout\n\t\t\t\tlog.Tracef("Worker %v timeout for request %T "+\n\t\t\t\t\t"with job index %v", peer.Addr(),\n\t\t\t\t\tjob.Req, job.Index())\n\n\t\t\t\treturn\n')], ["C12.O2"])
+mut("c12-worker-timeout-success", ["C12"], [("query/worker.go", '\t\t\t\tjobErr = ErrQueryTimeout\n\t\t\t\tlog.Tracef("Worker %v timeout for request %T "+\n\t\t\t\t\t"with job index %v", peer.Addr(),\n\t\t\t\t\tjob.Req, job.Index())\n\n\t\t\t\tbreak Loop\n', '\t\t\t\tlog.Tracef("Worker %v timeout for request %T "+\n\t\t\t\t\t"with job index %v", peer.Addr(),\n\t\t\t\t\tjob.Req, job.Index())\n\n\t\t\t\tbreak Loop\n')], ["C12.O2"])
+mut("c12-quiet-closure-verdict", ["C12"], [(WM, '''				batch.errChan <- result.err
+				stopTimers(batch)
+				delete(currentBatches, batchNum)
+
+				log.Debugf("Canceled batch %v", batchNum)
+				continue Loop
+''', '''				e := result.err
+				batch.errChan <- e
+				delete(currentBatches, batchNum)
+				stopTimers(batch)
+
+				log.Debugf("Canceled batch %v", batchNum)
+				continue Loop
+''')], [])
